@@ -553,6 +553,7 @@ func runC08(p *load.Program, r *oblig.Report) {
 	// i is msgs[i] (C01.R5)
 	shareRules(r, "C08", "C08.R7 a request carries only the messages assigned to its partition", func(sub *oblig.Report) { c01RequestIdentity(p, sub) })
 	c08TimerArmedOnce(p, r)
+	c08FullAfterEveryAdd(p, r, "C08.R9 the count limit is tested after every message")
 }
 
 func c08Tables(p *load.Program, r *oblig.Report) {
@@ -1055,6 +1056,8 @@ func runC01(p *load.Program, r *oblig.Report) {
 	c01ProduceResponse(p, r)
 	c01Temporary(p, r)
 	c01MakeError(p, r, "C01.R9 an error code other than 0 is never taken for an acknowledgement")
+	c01QueueDrainedBeforeNil(p, r, "C01.R10 the sender stops only when its queue is empty")
+	c01WaitsForEveryBatch(p, r, "C01.R11 the results of a call are read when all its batches have completed")
 	c07PutDiscipline(p, r, "C01.R4 a batch is produced once: enqueued while current, under the partition mutex")
 	// the acknowledgement is read from a Produce response laid out as Kafka defines it: a field out of place makes an
 	// acknowledged response fail to decode, which the Writer takes for a transient error and sends the batch again
